@@ -7,6 +7,13 @@ ENGINES = [
 NOTES = "All checks rebuild from /repo's current working tree. Exit 2 = internal error of the machinery (never a verdict)."
 NOT_APPLICABLE = {}
 META = {
+    "C12": {
+        "engine": "bubble + exhaustive merge orders + explicit-state search",
+        "design_ref": "DESIGN.md section 3 C12",
+        "technique": "exhaustive enumeration of all merge orders of all per-parent time sequences up to a bound through the real join/union nodes (arrival order controlled by feeding one point at a time to quiescence), differential oracle across merge orders + pairing reference model; explicit-state BFS to closure over the real CircularQueue",
+        "level_text": "For every configuration (tolerance, fill, on-dimension, 2 or 3 parents) and every tuple of per-parent sequences up to 3 points, every merge order is executed on a real task; the multiset of joined points must be the same for every merge order and equal the k-th-occurrence reference, union must emit each message once in parent order and non-decreasing time, everything buffered must be flushed at task end. The CircularQueue used by both nodes is searched to closure (head, tail, Len, cap as key) against a slice.",
+        "level_note": "Trusted: Go runtime/synctest, |log() sinks. Goroutine-level interleavings inside edge.multiConsumer (reader goroutines, EOF order, an error from one parent) are not yet explored with the controlled scheduler; batch joins are not enumerated.",
+    },
     "C02": {
         "engine": "explicit-state search over event histories + controlled scheduler (vsched)",
         "design_ref": "DESIGN.md section 3 C02",
